@@ -9,13 +9,15 @@ from ..flow import Flow
 from ..model import AnalysisError, Cls, Func, Program, walk_own
 from ..report import Report
 from ..resolve import const_value, dotted, kwarg
-from ..util import calls_in, ext_name, returns_of, src
+from ..util import calls_in, ext_name, is_manager_expr, manager_fields, returns_of, src
 from .filefam import FILES_MOD
 
 
 def run(prog: Program, rep: Report):
     tp = prog.cls("TmpPool", FILES_MOD)
     fp = prog.cls("FilePool", FILES_MOD)
+    _MGR["fields"] = manager_fields(prog, tp)
+    _MGR["self"] = prog.method(tp, "__init__").self_name
     r1_unconditional(prog, rep, tp, fp)
     r2_registered(prog, rep, tp, fp)
     r3_covers(prog, rep, tp, fp)
@@ -127,8 +129,12 @@ def r2_registered(prog, rep: Report, tp: Cls, fp: Cls):
               scenario="some of the given files are not opened (or opened in another mode): pool[path] raises KeyError")
 
 
+_MGR = {"self": "self", "fields": set()}
+
+
 def _is_manager_list(call: ast.Call) -> bool:
-    return isinstance(call.func, ast.Attribute) and call.func.attr == "list" and "manager" in src(call.func.value).lower()
+    """<manager field of the pool>.list(...)  (the manager fields are those assigned from a Manager() construction)"""
+    return isinstance(call.func, ast.Attribute) and call.func.attr == "list" and is_manager_expr(call.func.value, _MGR["self"], _MGR["fields"])
 
 
 def _multi_proc_field(prog, tp: Cls) -> str:
@@ -201,10 +207,10 @@ def r3_covers(prog, rep: Report, tp: Cls, fp: Cls):
     if len(resets) == 1 and loops and f.node.body.index(resets[0]) > f.node.body.index(loops[0]):
         v = resets[0].value
         if isinstance(v, ast.IfExp):
-            mp = "multi_proc" in src(v.test)
+            neg = isinstance(v.test, ast.UnaryOp) and isinstance(v.test.op, ast.Not)
+            mp = dotted(v.test.operand if neg else v.test) == (f.self_name, _multi_proc_field(prog, tp))
             mgr = isinstance(v.body, ast.Call) and _is_manager_list(v.body)
             plain = isinstance(v.orelse, ast.List) and not v.orelse.elts
-            neg = isinstance(v.test, ast.UnaryOp)
             ok = mp and ((mgr and plain and not neg) or (neg and isinstance(v.body, ast.List) and isinstance(v.orelse, ast.Call) and _is_manager_list(v.orelse)))
     rep.check("C20.R3", f, "flush-resets-registry", ok, "registry replaced by a manager list iff multi_proc, else []",
               "after flush the registry is not an empty list of the right kind (manager list iff multi_proc)",
